@@ -188,9 +188,14 @@ def check_text(text, fn, part, label):
         part.count('skipped_pep695')
         return out
     nonlocals = set()
+    implicit = set()      # names some scope owns only through `x += 1` or `x: int` (no value): locals without a binding statement
     for n in ast.walk(tree):
         if isinstance(n, ast.Nonlocal):
             nonlocals.update(n.names)
+        elif isinstance(n, ast.AugAssign) and isinstance(n.target, ast.Name):
+            implicit.add(n.target.id)
+        elif isinstance(n, ast.AnnAssign) and n.value is None and isinstance(n.target, ast.Name):
+            implicit.add(n.target.id)
     s = Source(text, fn)
     try:
         with watchdog(60):
@@ -264,6 +269,8 @@ def check_text(text, fn, part, label):
             if not ok:
                 if n.id in nonlocals:
                     sig = 'wrong-scope:name-declared-nonlocal'
+                elif n.id in implicit and kind in ('local', 'free') and not owner_binds(tree, chain[idx] if idx is not None else None, n.id):
+                    sig = 'wrong-scope:local-only-through-augassign-or-annotation'
                 else:
                     sig = 'wrong-scope:compiler=%s(%s):supp=%s' % (kind, chain[idx].get_type() if idx is not None else '-', sk)
                 if sig not in seen:
@@ -271,6 +278,52 @@ def check_text(text, fn, part, label):
                     out.append((sig, '%s: `%s` at %s: compiler resolves it as %s in %s, supp offers the binding %r owned by %s %s' % (
                         label, n.id, np(n), kind, want, a, sk, sname or '')))
     return out
+
+
+def owner_binds(tree, blk, name):
+    """does the function the compiler makes `name` local to contain an ordinary binding of it (not just x += 1 / x: int)?"""
+    if blk is None:
+        return True
+    for fn in ast.walk(tree):
+        if isinstance(fn, (ast.FunctionDef, ast.AsyncFunctionDef)) and fn.name == blk.get_name() and fn.lineno == blk.get_lineno():
+            for n in ast.walk(fn):
+                if isinstance(n, ast.Name) and n.id == name and isinstance(n.ctx, ast.Store):
+                    par = [p for p in ast.walk(fn) if isinstance(p, (ast.AugAssign, ast.AnnAssign)) and p.target is n]
+                    if not par or (isinstance(par[0], ast.AnnAssign) and par[0].value is not None):
+                        return True
+                elif isinstance(n, ast.arg) and n.arg == name:
+                    return True
+            return False
+    return True
+
+
+IMPLICIT_LOCALS = []
+for _how in ('x += 1', 'x: int'):
+    for _outer in ('x = 0\n', ''):
+        for _encl in (False, True):
+            for _reader in ('    return x', '    def f2():\n        return x\n    return f2()', '    return [x for q in [1]]', '    return (lambda: x)()',
+                            '    class K2:\n        v = x\n    return K2'):
+                _body = '    %s\n%s\n' % (_how, _reader)
+                if _encl:
+                    IMPLICIT_LOCALS.append(_outer + 'def f0():\n    x = 1\n' + ''.join('    ' + l + '\n' for l in ('def f1():\n' + _body).splitlines()) + '    return f1()\nf0()\n')
+                else:
+                    IMPLICIT_LOCALS.append(_outer + 'def f1():\n' + _body + 'f1()\n')
+
+
+def unit_implicit(_):
+    part = Part()
+    for text in IMPLICIT_LOCALS:
+        try:
+            symtable.symtable(text, '<gen>', 'exec')
+        except SyntaxError:
+            part.count('scope_shapes_rejected_by_compiler')
+            continue
+        part.count('evaluations')
+        part.count('programs')
+        for sig, what in check_text(text, 'gen.py', part, 'implicit local'):
+            part.violation(sig, what + '\n--- source ---\n' + text, {'kind': 'text', 'text': text})
+    part.outcome('implicit-locals')
+    return part
 
 
 # ------------------------------------------------------------------ Pi_scope
@@ -423,6 +476,7 @@ def run(ctx):
     step = 400
     units = [(unit_scope, (ctx.tier, lo, min(n, lo + step))) for lo in range(0, n, step)]
     units += [(unit_file, f) for f in corpus.files('thorough')]     # the whole stdlib is cheap enough for every run
+    units.append((unit_implicit, None))
     ctx.pmap(_dispatch, ctx.shuffled(units), chunksize=2)
     c = ctx.counters
     ctx.counters['distinct_nontrivial'] = int(c['programs']) + int(c['files'])
